@@ -180,7 +180,8 @@ def sub_constructors_long(ctx, shard, n):
     name = st.builds(lambda l, a: l + a, st.sampled_from(T.LETTERS),
                      st.text(alphabet="#b", min_size=6, max_size=40)
                      | st.builds(lambda s, k: s * k, st.sampled_from("#b"), st.integers(6, 40))
-                     | lopsided_accidentals(48) | lopsided_accidentals(48))
+                     | lopsided_accidentals(48) | lopsided_accidentals(48) | lopsided_accidentals(400)
+                     | st.builds(lambda s, k: s * k, st.sampled_from("#b"), st.integers(100, 400)))
     strat = st.tuples(st.sampled_from(CONSTRUCTOR_NAMES), name).map(list)
     ctx.given("constructor", check_constructor, strat, 1500 if ctx.quick else 40000)
 
